@@ -81,6 +81,8 @@ def corrupt(module: str, e: dict) -> dict:
             e["renders"][-1]["out"] = "bogus"
     elif m == "J_Replace":
         e["rep"] = drop_mid(e["rep"])
+    elif m == "J_Head":
+        e["head"] = e["head"] + ["TOP"]
     elif m == "J_Names":
         e["names"] = e["names"] + e["names"][:1] if e["names"] else ["x", "x"]
     elif m == "J_Sel":
